@@ -1,0 +1,53 @@
+//go:build verif && amd64 && gc && !purego
+
+package blake2b
+
+import (
+	"errors"
+
+	"golang.org/x/sys/cpu"
+)
+
+// VerifImpls lists the hashBlocks variants this CPU can run.
+func VerifImpls() []string {
+	var l []string
+	if cpu.X86.HasAVX2 {
+		l = append(l, "avx2")
+	}
+	if cpu.X86.HasAVX {
+		l = append(l, "avx")
+	}
+	if cpu.X86.HasSSE41 {
+		l = append(l, "sse4")
+	}
+	return append(l, "generic")
+}
+
+// VerifSetImpl forces hashBlocks to dispatch to the named variant ("" restores
+// the CPU default).
+func VerifSetImpl(name string) error {
+	switch name {
+	case "":
+		useAVX2, useAVX, useSSE4 = cpu.X86.HasAVX2, cpu.X86.HasAVX, cpu.X86.HasSSE41
+	case "avx2":
+		if !cpu.X86.HasAVX2 {
+			return errors.New("unsupported")
+		}
+		useAVX2, useAVX, useSSE4 = true, false, false
+	case "avx":
+		if !cpu.X86.HasAVX {
+			return errors.New("unsupported")
+		}
+		useAVX2, useAVX, useSSE4 = false, true, false
+	case "sse4":
+		if !cpu.X86.HasSSE41 {
+			return errors.New("unsupported")
+		}
+		useAVX2, useAVX, useSSE4 = false, false, true
+	case "generic":
+		useAVX2, useAVX, useSSE4 = false, false, false
+	default:
+		return errors.New("unknown")
+	}
+	return nil
+}
